@@ -353,7 +353,7 @@ struct C06 : Scenario {
 			f.check_data = true;
 			f.data = member_contents(m);
 			if (m.gmtime != 0) { f.check_mtime = true; f.mtime = m.gmtime; }
-			if (m.gperms >= 0) { f.check_mode = true; f.mode = m.gperms & 0777; }
+			if (m.gperms >= 0) { f.check_mode = true; f.mode = m.gperms & 07777; }
 			M.tree[out] = f;
 		}
 		if (cli && !op.w.empty() && op.cmd != 'p' && M.selected > 0) {
@@ -414,7 +414,8 @@ struct C06 : Scenario {
 				res.fail(m.type == 'd' ? "C06.dir_mtime" : "C06.file_mtime", std::string("mtime:") + m.type, ctx + ": " + e.first + strf(" has mtime %lld, recorded %lld", (long long) n.mtime, (long long) m.mtime));
 				return false;
 			}
-			int mask = m.type == 'd' ? 07777 : 0777;
+			// as root nothing drops set-id bits (chown comes before chmod, writes keep them); an unprivileged writer loses them
+			int mask = (m.type == 'd' || fs.euid == 0) ? 07777 : 0777;
 			if (m.check_mode && (n.mode & mask) != (m.mode & mask)) {
 				res.fail(m.type == 'd' ? "C06.dir_mode" : "C06.file_mode", std::string("mode:") + m.type, ctx + ": " + e.first + strf(" has mode %o, recorded %o", n.mode & mask, m.mode & mask));
 				return false;
@@ -486,3 +487,37 @@ struct C06 : Scenario {
 	}
 };
 REGISTER_SCENARIO(C06);
+
+// ---- real-tool cross-check support: dump one C06 tool plan (archive bytes, invocation, initial tree) and the tree the
+// simulated run produced, so that tools/selftests.py can run the plain lha binary on a real directory and compare
+#include <fstream>
+int c06_dump(uint64_t seed, uint64_t run, const std::string &outdir) {
+	C06 sc;
+	Plan p = sc.generate(seed, run, "quick");
+	p.property = "C06"; p.seed = seed; p.run = run;
+	if (p.scenario != "cli") return 3;
+	Opts op = parse_cmd(p.argv[1]);
+	if (!op.w.empty() && op.w[0] == '/') return 3;   // absolute w= cannot be relocated into a scratch directory
+	begin_run(p);
+	BuiltArchive a = build_archive(p);
+	CliEnv env(p);
+	g_sim.budget = 400000 + 256 * a.bytes.size();
+	CliResult r = env.run(p, a.bytes);
+	if (r.budget) return 3;
+	{ std::ofstream f(outdir + "/archive.lzh", std::ios::binary); f.write((const char *) a.bytes.data(), (std::streamsize) a.bytes.size()); }
+	std::ofstream s(outdir + "/spec.txt");
+	s << "euid " << p.geti("euid") << "\numask " << p.geti("umask", 022) << "\ntz " << p.gets("tz", "UTC") << "\nstatus " << r.status << " " << (int) r.exited << "\n";
+	s << "stdin " << (p.stdin_script.empty() ? "-" : hex_encode(p.stdin_script)) << "\n";
+	for (auto &x : p.argv) s << "argv " << hex_encode(x) << "\n";
+	for (auto &e : p.fs) s << "fs " << e.type << " " << hex_encode(e.path) << " " << e.mode << " " << e.mtime << " " << (e.data.empty() ? "-" : hex_encode(e.data)) << " " << (e.target.empty() ? "-" : hex_encode(e.target)) << "\n";
+	s << "stdout " << (r.out.empty() ? "-" : hex_encode(r.out)) << "\n";
+	// final simulated tree below the root
+	std::function<void(int, const std::string &)> walk = [&](int ino, const std::string &rel) {
+		const Inode &n = env.fs.nodes[ino];
+		if (!rel.empty())
+			s << "tree " << hex_encode(rel) << " " << n.type << " " << n.mode << " " << n.mtime << " " << n.data.size() << ":" << crc16_bitwise(n.data) << " " << (n.target.empty() ? "-" : hex_encode(n.target)) << "\n";
+		if (n.type == 'd') for (auto &e : n.ents) walk(e.second, rel.empty() ? e.first : rel + "/" + e.first);
+	};
+	walk(env.fs.lookup("/w/x/y/root"), "");
+	return 0;
+}
